@@ -1055,3 +1055,45 @@ class C39(Spec):
 
     def sample(self, case, res):
         return {'seed': case['seed'], 'cfg': case['cfg'], 'prog': case['prog'], 'results': repr(res.results)[:300]}
+
+
+@_register
+class C37(Spec):
+    check_id = 'C37'
+    family = 'np'
+    needs_numpy = True
+    title = 'secure NumPy arrays agree with plain NumPy and with secure scalars'
+    technique = 'deterministic simulation (numpy mode) + plain NumPy reference on exact Python ints / Fractions'
+    quick = {'runs': 1200, 'wall': 85}
+    thorough = {'runs': 200000, 'wall': 900}
+    per_run_timeout = 300
+    assumptions = ['numpy 2.5.3 from the offline wheelhouse installed into /verif/.deps (not part of the baseline venv)']
+
+    def make_case(self, seed, tier):
+        from .families import npfam
+        rng = random.Random(f'C37/{seed}')
+        cfg = sample_cfg(rng, tier, m_max=3 if tier == 'quick' else 5)
+        prog = npfam.gen(rng, cfg, tier, kf={13: ('update',), 17: ('scalar_left_cmp',)}.get(seed % 20, ()),
+                         effects=(seed % 3 == 0))
+        return {'family': 'np', 'cfg': cfg.to_json(), 'prog': prog, 'seed': seed, 'opts': {'step_cap': 3000000}}
+
+    def sample(self, case, res):
+        return {'seed': case['seed'], 'cfg': case['cfg'], 'prog': case['prog'], 'results': repr(res.results)[:200]}
+
+
+def _kf_c37(self, tier):
+    return [
+        {'family': 'np', 'cfg': _cfgj(2, 0), 'rand_seed': 2000499,
+         'prog': {'family': 'np', 'type': {'kind': 'fld', 'q': 65537},
+                  'stmts': [['input', 'a1', [], {'sender': 1, 'shape': [1], 'values': [59016], 'dummy': [21983]}],
+                            ['input', 'a2', [], {'sender': 0, 'shape': [1, 1], 'values': [25235], 'dummy': [19302]}],
+                            ['sum', 'a3', ['a2'], {'axis': 0}], ['update', 'a4', ['a2', 'a1'], {'key': [0]}]],
+                  'outputs': ['a3'], 'tags': ['np_update']}},
+        {'family': 'np', 'cfg': _cfgj(1, 0),
+         'prog': {'family': 'np', 'type': {'kind': 'int', 'l': 16},
+                  'stmts': [['const', 'a1', [], {'shape': [3], 'values': [1, 2, 3]}], ['sum', 'a2', ['a1'], {'axis': None}],
+                            ['eq', 'a3', ['a2', 'a1'], {}]], 'outputs': ['a3'], 'tags': ['scalar_left_cmp']}},
+    ]
+
+
+C37.kf_cases = _kf_c37
